@@ -1126,8 +1126,13 @@ def _classify_ingest(ctx, stream, case, kind, path, rep, m, pack_ids):
             if kind == "disk" and rep.get("exc") == "BufferError" and installed and not rep.get("gonefiles") and rep.get("changed"):
                 pass    # reported just above (same defect: the rollback was skipped)
             elif not rep.get("gonefiles") and all(f.startswith(TMP_PATTERNS) for f in new):
-                cls = "failed-thin-pack-leaves-tmp_pack-file" if path.startswith("thin") else \
-                      ("failed-commit-leaves-tmp-pack-file" if path == "addpack" else f"failed-ingest-leaves-tmp:{path}")
+                # the two known leftovers are exactly ONE temp file at the place the path creates it
+                if path.startswith("thin") and len(new) == 1 and new[0].startswith(TMP_PATTERNS[0]):
+                    cls = "failed-thin-pack-leaves-tmp_pack-file"
+                elif path == "addpack" and len(new) == 1 and new[0].startswith(TMP_PATTERNS[1]) and new[0].endswith(".pack"):
+                    cls = "failed-commit-leaves-tmp-pack-file"
+                else:
+                    cls = f"failed-ingest-leaves-tmp:{path}"
                 ctx.oracle_fail(stream, dict(case, newfiles=new, exc=rep.get("exc")),
                                 f"FAILED ingest ({rep.get('exc')}) left files behind in the object directory: {new}", cls)
             else:
